@@ -485,7 +485,10 @@ func c09ClosedEarly(rt *rapid.T) {
 	}
 	ctx, cancel := context.WithCancel(context.Background())
 	defer cancel()
-	h := client.NewVerifInFlight(ctx, n, maxPending, timeout)
+	// spare: slots of the limit that stay free, so that a refusal of an id in use cannot hide behind "too many in flight"
+	spare := rapid.SampledFrom([]int{0, 0, 1, 3}).Draw(rt, "spareSlots")
+	limit := n + spare
+	h := client.NewVerifInFlight(ctx, limit, maxPending, timeout)
 	defer h.Close()
 	type ent struct {
 		id   int16
@@ -538,7 +541,7 @@ func c09ClosedEarly(rt *rapid.T) {
 	}
 	// until their final responses arrive all N requests are unanswered - also the ones the library has completed early,
 	// whose ids are still in use on the wire: a further send is refused
-	if f := reqFrame(client.ManagedStreamId); true {
+	if f := reqFrame(client.ManagedStreamId); spare == 0 {
 		if _, err := h.Enqueue(f); err == nil {
 			rt.Fatalf("N=%d maxPending=%d: with all %d requests unanswered (%d of them completed early by %s, their final responses still to come) a further managed send was accepted with stream id %d",
 				n, maxPending, n, early, map[bool]string{true: "timeout", false: "overflow"}[byTimeout], f.Header.StreamId)
@@ -548,7 +551,7 @@ func c09ClosedEarly(rt *rapid.T) {
 		for _, e := range reqs {
 			if e.mode != "normal" {
 				if _, err := h.Enqueue(reqFrame(e.id)); err == nil {
-					rt.Fatalf("N=%d: caller-chosen stream id %d was accepted again while the request that carries it (completed early by %s) is still unanswered", n, e.id, e.mode)
+					rt.Fatalf("N=%d (limit %d): caller-chosen stream id %d was accepted again while the request that carries it (completed early by %s) is still unanswered", n, limit, e.id, e.mode)
 				}
 				break
 			}
@@ -566,22 +569,22 @@ func c09ClosedEarly(rt *rapid.T) {
 		rt.Fatalf("N=%d maxPending=%d early=%d (%s): %d request(s) still registered after every request's final response has arrived", n, maxPending, early, map[bool]string{true: "timeout", false: "overflow"}[byTimeout], h.Len())
 	}
 	seen := map[int16]bool{}
-	for k := 0; k < n; k++ {
+	for k := 0; k < limit; k++ {
 		f := reqFrame(client.ManagedStreamId)
 		if _, err := h.Enqueue(f); err != nil {
-			rt.Fatalf("N=%d maxPending=%d: after every final response arrived (%d requests had been completed early by %s, explicit ids=%v) only %d of %d new managed sends succeeded: %v (a stream id or a slot was lost)",
-				n, maxPending, early, map[bool]string{true: "timeout", false: "overflow"}[byTimeout], explicit, k, n, err)
+			rt.Fatalf("limit=%d maxPending=%d: after every final response arrived (%d of %d requests had been completed early by %s, explicit ids=%v) only %d of %d new managed sends succeeded: %v (a stream id or a slot was lost)",
+				limit, maxPending, early, n, map[bool]string{true: "timeout", false: "overflow"}[byTimeout], explicit, k, limit, err)
 		}
 		id := f.Header.StreamId
-		if id < 1 || int(id) > n || seen[id] {
-			rt.Fatalf("refill handed out stream id %d (duplicate or outside 1..%d)", id, n)
+		if id < 1 || int(id) > limit || seen[id] {
+			rt.Fatalf("refill handed out stream id %d (duplicate or outside 1..%d)", id, limit)
 		}
 		seen[id] = true
 	}
 	if _, err := h.Enqueue(reqFrame(client.ManagedStreamId)); err == nil {
-		rt.Fatalf("send number %d accepted with limit %d", n+1, n)
+		rt.Fatalf("send number %d accepted with limit %d", limit+1, limit)
 	}
-	rec.Case(early > 0, stats.HashString(fmt.Sprintf("early/%d/%d/%v/%v/%d", n, maxPending, byTimeout, explicit, early)), func() string {
+	rec.Case(early > 0, stats.HashString(fmt.Sprintf("early/%d/%d/%d/%v/%v/%d", n, spare, maxPending, byTimeout, explicit, early)), func() string {
 		return fmt.Sprintf("closed-early: N=%d maxPending=%d, %d requests completed early by %s, explicit ids=%v, then all finals, then refill", n, maxPending, early, map[bool]string{true: "timeout", false: "overflow"}[byTimeout], explicit)
 	}, "closed-early", fmt.Sprintf("closed-early:timeout=%v", byTimeout))
 }
